@@ -714,12 +714,13 @@ class MSSQLQueryBuilder(FetchNextAndOffsetRowsQueryBuilder):
         https://docs.microsoft.com/en-us/sql/t-sql/queries/top-transact-sql?view=sql-server-2017
         """
         try:
-            self._top = int(value)
-        except ValueError:
+            top = int(value)
+        except (ValueError, TypeError):
             raise QueryException("TOP value must be an integer")
 
-        if percent and not (0 <= int(value) <= 100):
+        if percent and not (0 <= top <= 100):
             raise QueryException("TOP value must be between 0 and 100 when `percent`" " is specified")
+        self._top = top
         self._top_percent: bool = percent
         self._top_with_ties: bool = with_ties
 
